@@ -108,7 +108,7 @@ CanSelect == OsslCanSelect(st.o1, st.scn)
 \* KeyShareEntry MUST correspond to a group offered in supported_groups ... servers MAY check and abort with
 \* illegal_parameter"): OpenSSL checks, the in-tree server does not.  Still a rejection (the fingerprint does not
 \* complete with a compliant server), but named so that it can be told from a refusal nobody can explain.
-RefusalClass == IF \E p \in ShareProblems(st.o1) : p[1] = "share-not-in-groups"
+RefusalClass == IF ShareOutsideGroups(st.o1) # {}
                 THEN "server-refused-hello-with-share-outside-supported-groups"
                 ELSE "server-refused-selectable-offer"
 \* the ServerHello shows what the scenario configured
